@@ -28,8 +28,8 @@ CLAIMS = {
          "Exploration + bounded-exhaustive: generated logs/containers/windows run at 5 block sizes from a boundary-rich pool incl. 64 and 0xFFFFFF; in-process LineReader at block sizes 1..len+2 on generated contents, and every content over {\\n,a,1} up to length 7 at every block size 1..len+1 (exhaustive).",
          "Trusts: the 65536 run as metamorphic reference (additionally compared with the generator model); files outside the block-zero heuristic excluded (F6).",
          "DESIGN.md section 4 C12"),
- "C04": ("property-based testing (proptest): generated (notation template, instant, zone spelling, fraction digits, case variant, -t) tuples, round-trip oracle through `s4 -u -d %s.%9f`",
-         "Exploration: thousands of files of 20..60 timestamps each over 32 notation templates covering every family the statement names; the instant s4 attributes to every line must equal the generated instant to the written nanosecond, and every line must be its own message. Days stratified over 1970-01-02..2099-12-30, offsets in 15-minute steps, every upper-case zone abbreviation of the project's table.",
+ "C04": ("property-based testing (proptest) + coverage-guided fuzzing (libFuzzer, thorough tier): generated (notation template, instant, zone spelling, fraction digits, case variant, -t) tuples, round-trip oracle through `s4 -u -d %s.%9f` and, in-process, through SyslogProcessor",
+         "Exploration: thousands of files of 20..60 timestamps each over 32 notation templates covering every family the statement names; the instant s4 attributes to every line must equal the generated instant to the written nanosecond, and every line must be its own message. Days stratified over 1970-01-02..2099-12-30, offsets in 15-minute steps, every upper-case zone abbreviation of the project's table. Thorough tier adds a libFuzzer campaign (harness/fuzz fuzz_dt) that decodes the same grammar from bytes and checks the instant of every message in-process.",
          "Trusts: harness civil-time arithmetic (independent of chrono); frozen copy of the zone abbreviation table; notations outside the templates are not covered.",
          "DESIGN.md section 4 C04"),
  "C13": ("property-based testing (proptest): generated option tuples x sources x file names, constructive expected-output oracle",
